@@ -103,7 +103,7 @@ def showOut : EPV.CmpSpec.Out → String
 def showAllowed (a : Option (List EPV.CmpSpec.Out)) : String :=
   match a with
   | none => "NA"
-  | some l => if l.isEmpty then "NA" else "|".intercalate (l.map showOut)
+  | some l => if l.isEmpty then "NA" else "|".intercalate ((l.map showOut).eraseDups)
 
 def showTrig (l : List String) : String := if l.isEmpty then "-" else ",".intercalate l
 
